@@ -10,7 +10,8 @@
     graphics: not the selected lines, not blank). *)
 From Coq Require Import List ZArith Bool Lia Uint63.
 Import ListNotations.
-From TI Require Import lib.Term lib.TermFacts lib.RectCheck model.Padding model.Trim model.TrimSpec.
+From TI Require Import lib.Term lib.TermFacts lib.RectCheck model.Padding model.Trim model.TrimSpec
+     model.TrimCanvas model.TrimIter.
 Open Scope Z_scope.
 
 Record tobs := {
@@ -54,6 +55,14 @@ Definition dec_tok (aux : list tok) (w : Uint63.int) : tok :=
 Definition dec_rows (aux : list tok) (rows : list (list Uint63.int)) : list (list tok) :=
   map (map (dec_tok aux)) rows.
 
+(** Several requests on the canvas in flight AT ONCE (round 4): [i_obs] = the positions in
+    [c_obs] of the requests of the group, in the order their generators were created;
+    [i_sched] = which of them (position in [i_obs]) each successive [next()] went to;
+    [i_ev] = what that [next()] returned: the table index of the row, [-1] = StopIteration.
+    (The rows each request received, in order, are ALSO its observation in [c_obs], judged by
+    [model_obs] / [spec_obs] like every other request.) *)
+Record tinter := { i_obs : list nat; i_sched : list nat; i_ev : list Z }.
+
 Record tcase := {
   c_gfx : bool;                 (* graphics-based image *)
   c_d : nat;                    (* disguise pairs expected on untrimmed-width rows *)
@@ -67,8 +76,12 @@ Record tcase := {
   (* flow render: [upscale (0/1); maxcol; fit w; fit h; original w; original h; rows() before
      render; rows() after render], [fit] / [original] = the image's [_valid_size] evaluated in
      the environment current at that render; [] for a box render *)
-  c_flow : list Z
+  c_flow : list Z;
+  c_inter : list tinter         (* groups of simultaneous requests *)
 }.
+
+Fixpoint index_from {A} (n : nat) (l : list A) : list (nat * A) :=
+  match l with [] => [] | x :: r => (n, x) :: index_from (S n) r end.
 
 (** ** equality tests *)
 Definition colour_dec (a b : colour) : {a = b} + {a <> b}.
@@ -161,10 +174,45 @@ Definition flow_spec_ok (c : tcase) : bool :=
   | _ => false
   end.
 
+(** ** simultaneous requests: the generator model run under the observed schedule *)
+Definition case_canvas (c : tcase) : canvas :=
+  {| cv_gfx := c_gfx c; cv_size := (c_W c, c_H c); cv_image_size := (c_w c, c_h c);
+     cv_align := (c_ha c, c_va c); cv_lines := c_lines c |}.
+Definition case_live (c : tcase) : live :=
+  {| lv_image_size := (c_w c, c_h c); lv_disguise := c_d c |}.
+Definition obs_req (o : tobs) : req :=
+  {| r_tl := o_tl o; r_tt := o_tt o; r_cols := o_cols o; r_rows := o_rows o |}.
+Definition no_obs : tobs :=
+  {| o_tl := -1; o_tt := -1; o_cols := None; o_rows := None; o_dis := 0; o_idx := [] |}.
+Definition group_obs (c : tcase) (g : tinter) : list tobs :=
+  map (fun k => nth k (c_obs c) no_obs) (i_obs g).
+
+Definition event_dec (a b : nat * option (list tok * nat)) : {a = b} + {a <> b}.
+Proof. decide equality; [decide equality; apply drow_dec | apply Nat.eq_dec]. Defined.
+Definition events_eqb (a b : list (nat * option (list tok * nat))) : bool :=
+  if list_eq_dec event_dec a b then true else false.
+
+(** the observed [next()] results as (request, row) events *)
+Definition obs_events (c : tcase) (g : tinter) : list (nat * option (list tok * nat)) :=
+  let os := group_obs c g in
+  map (fun p => (fst p,
+                 if snd p <? 0 then None
+                 else Some (nth (Z.to_nat (snd p)) (c_tbl c) [TCut CutCsi],
+                            Z.to_nat (o_dis (nth (fst p) os no_obs)))))
+      (combine (i_sched g) (i_ev g)).
+
+Definition inter_model_ok (c : tcase) (g : tinter) : bool :=
+  Nat.eqb (length (i_sched g)) (length (i_ev g))
+  && forallb (fun i => Nat.ltb i (length (i_obs g))) (i_sched g)
+  && events_eqb (obs_events c g)
+                (run (case_canvas c) (case_live c) (map (fun o => Fresh (obs_req o)) (group_obs c g))
+                     (i_sched g)).
+
 Definition model_ok (c : tcase) : bool :=
   (c_gfx c || shape_ok c) && flow_model_ok c
   && (Z.of_nat (length (c_lines c)) =? c_H c)
-  && forallb (model_obs c) (c_obs c).
+  && forallb (model_obs c) (c_obs c)
+  && forallb (inter_model_ok c) (c_inter c).
 
 (** ** specification side, on the implementation's own output *)
 
@@ -202,17 +250,29 @@ Definition spec_obs (c : tcase) (full : list (list tok * nat)) (o : tobs) : bool
                     (crop (Z.to_nat (o_tl o)) (Z.to_nat (o_tt o)) (Z.to_nat cols) (Z.to_nat rows)
                           (map (fun r => vis_row (fst r)) full)).
 
+(** simultaneous requests: the rows request [i] was handed by its successive [next()]s are,
+    in order, exactly the rows of ITS observation (which [spec_obs] compares with the crop of
+    ITS sub-rectangle), and nothing but StopIteration comes after them *)
+Definition zlist_eqb (a b : list Z) : bool := if list_eq_dec Z.eq_dec a b then true else false.
+Definition inter_spec_ok (c : tcase) (g : tinter) : bool :=
+  let evs := combine (i_sched g) (i_ev g) in
+  forallb (fun p =>
+             let recv := received (fst p) evs in
+             let rows := filter (fun e => 0 <=? e) recv in
+             zlist_eqb rows (o_idx (snd p))
+             && zlist_eqb recv (rows ++ repeat (-1) (length recv - length rows)))
+          (index_from 0 (group_obs c g)).
+
 Definition spec_ok (c : tcase) : bool :=
   let full := lookup c (c_full c) (c_fd c) in
   (Z.of_nat (length full) =? c_H c) && flow_spec_ok c
   && (c_gfx c || forallb (row_ok (c_W c)) full)
-  && forallb (spec_obs c full) (c_obs c).
+  && forallb (spec_obs c full) (c_obs c)
+  && forallb (inter_spec_ok c) (c_inter c).
 
 Definition check (c : tcase) : nat :=
   (if model_ok c then 0 else 1) + (if spec_ok c then 0 else 2).
 
-Fixpoint index_from {A} (n : nat) (l : list A) : list (nat * A) :=
-  match l with [] => [] | x :: r => (n, x) :: index_from (S n) r end.
 Definition bad (cases : list tcase) : list (nat * nat) :=
   filter (fun p => negb (Nat.eqb (snd p) 0)) (index_from 0 (map check cases)).
 
@@ -223,4 +283,8 @@ Definition explain (c : tcase) :=
   (c_gfx c || shape_ok c, Z.of_nat (length (c_lines c)) =? c_H c, (flow_model_ok c, flow_spec_ok c),
    filter (fun t => negb (snd (fst t) && snd t))
           (map (fun p => (fst p, model_obs c (snd p), spec_obs c full (snd p)))
-               (index_from 0 (c_obs c)))).
+               (index_from 0 (c_obs c))),
+   (* groups of simultaneous requests that fail: (group, (model agrees, specification holds)) *)
+   filter (fun t => negb (fst (snd t) && snd (snd t)))
+          (map (fun p => (fst p, (inter_model_ok c (snd p), inter_spec_ok c (snd p))))
+               (index_from 0 (c_inter c)))).
